@@ -202,6 +202,12 @@ def call(rec, group, label, watch, fn, explicit_inplace=False):
     rec.check(group, label, not bad, "; ".join(bad)[:500] + (f" [call raised {type(raised).__name__}]" if raised is not None and bad else ""),
               nontrivial=raised is None)
     if bad:
+        for it in watch.ops:
+            try:
+                if it[1].dtype != it[3]:
+                    it[1].type(it[3])  # an operator that was retagged in place: put the dtype back
+            except Exception:
+                pass
         watch.resnap()
     return raised
 
@@ -382,7 +388,9 @@ def exercise(rec, cname, label, op, dense, psd, kind, g, watch, tier, extra_ops=
     for nm, f in (("transpose", lambda: op.mT.to_dense()), ("clone_detach", lambda: (op.clone().to_dense(), op.detach().to_dense())),
                   ("rebuild", lambda: (op.evaluate_kernel().to_dense(), op.representation_tree()(*op.representation()).to_dense())),
                   ("expand_repeat", lambda: (op.expand(2, *op.shape).to_dense(), op.repeat(2, 1, 1).to_dense(), op.unsqueeze(0).to_dense())),
-                  ("convert", lambda: (op.double().to_dense(), op.float().to_dense(), op.to(torch.float64).to_dense(), op.type(torch.float32).to_dense(), op.cpu())),
+                  ("convert_double", lambda: op.double().to_dense()), ("convert_float", lambda: op.float().to_dense()),
+                  ("convert_to", lambda: (op.to(torch.float64).to_dense(), op.to(torch.float32).to_dense(), op.cpu())),
+                  ("convert_type", lambda: op.type(torch.float64 if op.dtype == torch.float32 else torch.float32).to_dense()),
                   ("permute_squeeze", (lambda: (zoo_dn(op.squeeze(0)), op.permute(*reversed(range(len(batch))), -2, -1).to_dense())) if batch else None),
                   ("elementwise", lambda: [_try(lambda: getattr(op, nm_)()) for nm_ in ("abs", "exp", "log", "sqrt", "inverse")])):
         if f is not None:
@@ -557,10 +565,11 @@ def rtc_zoo(case_names, tier):
     for label, c, op, dense in zoo.instances(tier, names=case_names, batches=batches, sizes=sizes):
         if op is None:
             continue
-        if dense.dtype == torch.float32 and not (label.endswith("n=4") and "b=()" in label) and tier == "quick":
+        f32_only = c.name in ("perm", "tperm")  # index-only operators exist in float32 only in the zoo
+        if dense.dtype == torch.float32 and not f32_only and not (label.endswith("n=4") and "b=()" in label) and tier == "quick":
             continue
         for kind in LAYOUTS:
-            if dense.dtype == torch.float32 and kind not in ("contig", "slice"):
+            if dense.dtype == torch.float32 and not f32_only and kind not in ("contig", "slice"):
                 continue
             s = zlib.crc32((label + kind).encode()) % (2**31)
             # a fresh operator per layout (caches, in-place flags)
